@@ -5,18 +5,21 @@ confirms: demo passes on the clean tree, fails with the patch, the test suite st
 import json, os, shutil, sys
 D = os.path.dirname(os.path.dirname(os.path.abspath(__file__)))
 HIST = json.load(open(os.path.join(D, 'tools', 'seed_history.json')))
+PREFIX = os.environ.get('MUT_PREFIX', '/tmp/mut_')
+OFFSET = int(os.environ.get('MUT_ID_OFFSET', '0'))
 for P in sys.argv[1:]:
     for i in ('1', '2', '3'):
-        src = '/tmp/mut_%s/_out/%s' % (P, i)
+        src = '%s%s/_out/%s' % (PREFIX, P, i)
+        sid = '%s-%d' % (P, int(i) + OFFSET)
         ev = os.path.join(src, 'eval.json')
         if not os.path.exists(ev):
             continue
         e = json.load(open(ev))
         ok = (e.get('status') == 'evaluated' and e.get('demo_clean_exit') == '0' and e.get('demo_patched_exit') not in ('0', None)
               and '579_passed' in e.get('tests', ''))
-        dst = os.path.join(D, 'seeded', '%s-%s' % (P, i))
+        dst = os.path.join(D, 'seeded', sid)
         if not ok:
-            print('%s-%s NOT CONFIRMED: %s' % (P, i, {k: e.get(k) for k in ('status', 'demo_clean_exit', 'demo_patched_exit', 'tests')}))
+            print('%s NOT CONFIRMED: %s' % (sid, {k: e.get(k) for k in ('status', 'demo_clean_exit', 'demo_patched_exit', 'tests')}))
             continue
         os.makedirs(dst, exist_ok=True)
         shutil.copy(os.path.join(src, 'patch.diff'), dst)
@@ -29,14 +32,14 @@ for P in sys.argv[1:]:
         how = 'not caught'
         if caught:
             how = 'failing input reported' if int(e.get('violations', '0')) > int(e.get('no_failing_input_found', '0')) else 'broken obligation/correspondence only (no-failing-input-found)'
-        meta = dict(id='%s-%s' % (P, i), property=P, summary=m.get('summary'), needs_to_manifest=m.get('needs_to_manifest') or m.get('what_it_needs_to_manifest'),
+        meta = dict(id=sid, property=P, summary=m.get('summary'), needs_to_manifest=m.get('needs_to_manifest') or m.get('what_it_needs_to_manifest'),
                     files_changed=m.get('files_changed'),
                     confirmed=dict(how='tools/seedeval.sh in a scratch worktree of /repo HEAD + scratch copy of /verif', demo_on_clean_tree_exit=0,
                                    demo_with_patch_exit=int(e['demo_patched_exit']), test_suite=e['tests'].replace('_', ' ')),
                     check=dict(command='./check %s --tier quick (VERIF_SEED=0)' % P, exit=int(e['check_exit']), violation_lines=int(e.get('violations', 0)),
                                no_failing_input_found_lines=int(e.get('no_failing_input_found', 0)), broken_obligations=int(e.get('broken', 0)),
                                signatures=[s for s in e.get('signatures', '').split(';') if s], verdict=how))
-        if '%s-%s' % (P, i) in HIST:
-            meta['history'] = HIST['%s-%s' % (P, i)]
+        if sid in HIST:
+            meta['history'] = HIST[sid]
         json.dump(meta, open(os.path.join(dst, 'meta.json'), 'w'), indent=1)
-        print('%s-%s installed: check exit %s (%s)' % (P, i, e.get('check_exit'), how))
+        print('%s installed: check exit %s (%s)' % (sid, e.get('check_exit'), how))
